@@ -84,6 +84,7 @@ fn gen(rng: &mut Rng, idx: u64, tier: Tier) -> Case {
         let (la, lo) = (rng.f64() * 170.0 - 85.0, rng.f64() * 358.0 - 179.0);
         args.push(match rng.below(5) { 0 => format!("--observer-coord={:.5},{:.5}", la, lo), 1 => format!("--observer-coord= {:.4} , {:.4} ", la, lo), 2 => format!("--observer-coord={:+.3},\t{:+.3}", la, lo), 3 => format!("--observer-coord={:.0},{:.0}", la.signum() * 0.0, lo), _ => format!("--observer-coord={:.0},{:.0}", la, lo) });
     }
+    gen::add_neutral_options(rng, &mut args, true, true);
     let mut truth: BTreeMap<String, (f64, f64)> = BTreeMap::new();
     let mut events: Vec<(i64, Vec<u8>, String)> = vec![]; // absolute time
     let n_frames = if tier == Tier::Thorough && rng.chance(0.05) { rng.range(60, 200) } else { rng.range(3, 30) };
